@@ -45,9 +45,22 @@ Theorem C10_cancel_after_success : forall progs sched c, fresh_cr progs -> let s
   (forall t sd k, lp (l_thr s t) <> LRelease sd false k) ->
   (forall t k, lp (l_thr s t) <> LDoClose k) ->
   l_done s (l_arm s SR) || l_done s (l_arm s SW) = false ->
+  l_lockreq s = false ->            (* no other call has given up a lock wait (that alone makes the timeout goroutine close) *)
   forall s', lstep s (LCancel c) = Some s' -> lstep s' LTimeout = None.
 Proof. exact life_cancel_after_success. Qed.
 Print Assumptions C10_cancel_after_success.
+
+(* WAITING FOR A LOCK: in every reachable state, a call whose context is done while it waits for a section lock can give the
+   wait up; the call fails, the timeout goroutine is asked to close the connection, can do so at once, and that closes it —
+   "the call returns promptly with an error and the connection is closed". *)
+Theorem C10_giveup_closes : forall progs sched t sd c k, let s := lrun (linit progs) sched in
+  lp (l_thr s t) = LWantMu sd c k -> l_done s c = true -> l_closed s = false ->
+  exists s1, lstep s (LStep t true) = Some s1 /\
+    l_closed s1 = false /\ l_lockreq s1 = true /\
+    l_thr s1 t = after_section (l_thr s t) false k /\
+    exists s2, lstep s1 LTimeout = Some s2 /\ l_closed s2 = true.
+Proof. exact life_giveup_closes. Qed.
+Print Assumptions C10_giveup_closes.
 
 (* Non-vacuity: a read under context 4 that succeeds, then the cancellation: the connection stays open and the next call
    can run; the same cancellation while the read is blocked closes the connection and fails the read. *)
